@@ -937,6 +937,8 @@ pub fn run_jq(args: JqCommand) -> Result<i32> {
     if let Some(delimiter) = args.input_dsv {
         if !args.slurp && !args.null_input && !uses_input_builtins {
             // Streaming mode: process each row independently
+            #[cfg(feature = "verif-hooks")]
+            crate::output::verif_route("dsv_stream");
             let files = get_input_files(&args);
             let raw_inputs: Vec<Vec<u8>> = if files.is_empty() {
                 vec![read_stdin_bytes()?]
@@ -1050,6 +1052,12 @@ pub fn run_jq(args: JqCommand) -> Result<i32> {
 
         // Check if we can use the identity fast path (raw bytes output, no materialization)
         let use_identity_fast_path = expr.is_identity() && output_config.can_use_raw_identity();
+        #[cfg(feature = "verif-hooks")]
+        crate::output::verif_route(if use_identity_fast_path {
+            "identity_raw"
+        } else {
+            "lazy"
+        });
 
         for (idx, raw) in raw_inputs.iter().enumerate() {
             let filename: Option<String> = files.get(idx).map(|p| p.to_string_lossy().to_string());
@@ -1136,6 +1144,12 @@ pub fn run_jq(args: JqCommand) -> Result<i32> {
         // data if someone runs `-n 'inputs'` at a bare interactive prompt
         // with data they intend to type in live rather than pipe/redirect --
         // an already-unusual way to invoke `-n` in the first place.
+        #[cfg(feature = "verif-hooks")]
+        crate::output::verif_route(if uses_input_builtins {
+            "materialized_inputq"
+        } else {
+            "materialized"
+        });
         let force_read_under_null_input = should_force_read_under_null_input(
             uses_input_builtins,
             args.null_input,
